@@ -116,15 +116,17 @@ def run_nlc(case, ctx):
             ctx.violation(K + "min-mean-max-order", "min <= mean <= max violated (%s input)" % nm, cfg=cfg)
     ctx.check(numpy.allclose(c1, ca, rtol=0, atol=1e-12), K + "minmax-changes-mean",
               "the correlation matrix differs with and without minmax under the same seed", cfg=cfg)
-    if kind == "integers":
+    judge_fa = kind != "integers" or mname == "linear"
+    if not judge_fa:
         # integer lattices are full of exact ties; scale() of a DataFrame (column-major block) and of a
-        # row-major array differ in the last bit, which flips tie-breaks inside trees / kNN: not judged
-        ctx.excluded("frame-vs-array on a tie-heavy integer table")
+        # row-major array differ in the last bit, which flips tie-breaks inside trees / kNN: judged with the
+        # linear model only
+        ctx.excluded("frame-vs-array on a tie-heavy integer table with a tie-breaking model")
     else:
         ctx.hit("nlc.frame_vs_array")
-    if kind != "integers" and not (numpy.allclose(numpy.asarray(cf), ca, rtol=0, atol=1e-12)
-            and numpy.allclose(numpy.asarray(mif), mia, rtol=0, atol=1e-12)
-            and numpy.allclose(numpy.asarray(maf), maa, rtol=0, atol=1e-12)):
+    if judge_fa and not (numpy.allclose(numpy.asarray(cf), ca, rtol=0, atol=1e-9)
+            and numpy.allclose(numpy.asarray(mif), mia, rtol=0, atol=1e-9)
+            and numpy.allclose(numpy.asarray(maf), maa, rtol=0, atol=1e-9)):
         ctx.violation(K + "frame-differs-from-array", "DataFrame and array give different values under the same seed",
                       cfg=cfg)
     for M in (cf, mif, maf):
@@ -139,6 +141,22 @@ def run_nlc(case, ctx):
                   "diagonal for LinearRegression is %r" % (dg,), cfg=cfg)
     ctx.hit("nlc.input_bytes")
     ctx.check(numpy.array_equal(X, Xk) and X.dtype == Xk.dtype, K + "input-modified", "the array was modified", cfg=cfg)
+    # other memory layouts of the same table: column-major, transposed view of a (features, samples) array
+    for lname, Xl in (("fortran-order", numpy.asfortranarray(Xk.astype(float))),
+                      ("transposed-view", numpy.ascontiguousarray(Xk.astype(float).T).T)):
+        keep = Xl.copy()
+        numpy.random.seed(seed)
+        try:
+            cl = non_linear_correlations(Xl, make_model(mname), draws=draws)
+        except Exception as e:
+            ctx.violation(K + "raised/%s/%s" % (lname, type(e).__name__), str(e)[:150], cfg=cfg)
+            continue
+        ctx.hit("nlc.input_bytes")
+        if not numpy.array_equal(Xl, keep):
+            ctx.violation(K + "input-modified/%s" % lname, "the caller's %s array was modified in place" % lname,
+                          cfg=cfg)
+        if kind != "integers" and not numpy.allclose(cl, ca, rtol=0, atol=1e-9):
+            ctx.violation(K + "layout-changes-values/%s" % lname, "values depend on the memory layout", cfg=cfg)
     ctx.check(df.equals(dfk) and list(df.index) == list(dfk.index), K + "input-modified",
               "the DataFrame was modified", cfg=cfg)
     if kind != "gauss" or d >= 3:
